@@ -48,7 +48,7 @@ func (vm *VM) runFunc(fn *Function, vars []reflect.Value) error {
 		if len(vm.calls) == 0 {
 			break
 		}
-		vm.calls = append(vm.calls, callFrame{cl: callable{fn: vm.fn}, renderer: vm.renderer, fp: vm.fp, status: panicked})
+		vm.calls = append(vm.calls, callFrame{cl: callable{fn: vm.fn}, renderer: vm.renderer, fp: vm.fp, status: panicked, prevPanic: p.next})
 		vm.fn = nil
 	}
 	if stop != nil {
